@@ -20,7 +20,7 @@ def run(ctx, mode='views', own=OWN):
     ctx.mc('MC_Views', 'MC_Views_%s.cfg' % ctx.tier, timeout=6000, heap='24g')
     if mode == 'nav':
         ctx.mc('MC_Navigation', 'MC_Navigation_%s.cfg' % ctx.tier, timeout=6000)
-    traces = ctx.record(exe, [mode] if mode != 'views' else [], shards=16, timeout=3000)
+    traces = ctx.record(exe, [mode] if mode != 'views' else [], shards=48 if (ctx.thorough and mode == 'nav') else 16, timeout=3000)
     if own is not OWN:
         # C02 / C03 also quantify over views that have no addresses (virtual locators, dereference adaptors): by value
         vexe, = ctx.build(['c02_values.nsan'], timeout=3000)
